@@ -10,7 +10,7 @@ COMMON_TRUST = [
 PROPS = {}
 
 PROPS["C15"] = {
-    "rules": ["R04", "R05", "R06", "R07"],
+    "rules": ["R04", "R05", "R06", "R07", "R30"],
     "explanation": (
         "Decides (structural, in full up to the listed assumptions): R04 "
         "every memoised function that can read mode-dependent calendar "
@@ -52,11 +52,11 @@ PROPS["C12"] = {"rules": ["R18", "R19"], "explanation": "wip", "assumptions": []
 PROPS["C13"] = {"rules": ["R19", "R18"], "explanation": "wip", "assumptions": [], "trusted": COMMON_TRUST}
 
 PROPS["C04"] = {"rules": ["R14", "R15", "R32", "R17", "R08"], "explanation": "wip", "assumptions": [], "trusted": COMMON_TRUST}
-PROPS["C19"] = {"rules": ["R32", "R20"], "explanation": "wip", "assumptions": [], "trusted": COMMON_TRUST}
+PROPS["C19"] = {"rules": ["R32", "R20", "R30"], "explanation": "wip", "assumptions": [], "trusted": COMMON_TRUST}
 
 PROPS["C07"] = {"rules": ["R23", "R24", "R25", "R26"], "explanation": "wip", "assumptions": [], "trusted": COMMON_TRUST}
 PROPS["C08"] = {"rules": ["R23", "R24", "R14", "R26"], "explanation": "wip", "assumptions": [], "trusted": COMMON_TRUST}
 
 PROPS["C10"] = {"rules": ["R27", "R26"], "explanation": "wip", "assumptions": [], "trusted": COMMON_TRUST}
-PROPS["C17"] = {"rules": ["R29", "R26", "R23", "R20"], "explanation": "wip", "assumptions": [], "trusted": COMMON_TRUST}
+PROPS["C17"] = {"rules": ["R29", "R26", "R23", "R20", "R13d"], "explanation": "wip", "assumptions": [], "trusted": COMMON_TRUST}
 PROPS["C18"] = {"rules": ["R26", "R14", "R07"], "explanation": "wip", "assumptions": [], "trusted": COMMON_TRUST}
